@@ -164,9 +164,6 @@ for d in data.get("Diffs") or []:
     ck.violation("dump-differs:%s:%s" % (d["Prog"], d["Func"]),
                  "IR of %s differs between build %s and build %s of the same program (mode %s, packages %s)" % (d["Func"], d["A"], d["B"], d["Mode"], d["Variant"]),
                  {"function": d["Func"], "a": d["A"], "b": d["B"], "text_a": ta[:6000], "text_b": tb[:6000], "rerun": rerun(d["B"])})
-for d in (data.get("RTDiffs") or [])[:2]:
-    ck.violation("runtime-types-count", "the number of Program.RuntimeTypes differs between build %s and build %s: %s vs %s" % (d["A"], d["B"], d["OnlyA"], d["OnlyB"]), {"diff": d})
-
 # ---------------------------------------------------------------- 3. event logs replayed in Coq
 def lab(e):
     k = e["k"]
